@@ -82,6 +82,9 @@ class Ctx(object):
             self.bad(construct, bad_message, finfo, node, statement=statement)
         return cond
 
+    def bad_keys(self):
+        return [v['construct'] for v in self.violations]
+
     def undecided(self, msg):
         raise AnalysisError('%s: %s' % (self.current_rule, msg))
 
